@@ -2,6 +2,7 @@ import ArgMapper.Driver.GraphD
 import ArgMapper.Driver.SigD
 import ArgMapper.Driver.CallD
 import ArgMapper.Driver.RedefD
+import ArgMapper.Driver.HistD
 open ArgMapper.Driver
 
 /-- model configuration flags passed on the command line (`key=value`) -/
@@ -18,6 +19,8 @@ def dispatch (cfg : Cfg) (b : Block) : String :=
   | "scc" => (runScc b).line b.kind b.id "C20"
   | "topo" => (runTopo b).line b.kind b.id "C20"
   | "call" => (runCall cfg.fl b).line b.kind b.id ""
+  | "conv" => (runCall cfg.fl b true).line b.kind b.id ""
+  | "hist" => (runHist cfg.fl b).line b.kind b.id ""
   | "redef" => (runRedef cfg.fl b).line b.kind b.id ""
   | "sig" => (runSig b).line b.kind b.id "C14"
   | "vset" => (runVset b).line b.kind b.id "C15"
@@ -30,7 +33,7 @@ def mkCfg (args : List String) : Cfg :=
   let on (k : String) : Bool := args.contains (k ++ "=true")
   let v : ArgMapper.Variant := ⟨!(off "r5SkipSame"), !(off "r6NameTest"), !(off "r8SkipSupplied")⟩
   let fl : Flags := ⟨v, !(off "memoCopy"), !(off "publishAfterUpdate"), !(off "trackReaching"),
-    !(off "takeValuedNamed"), on "skipRecordsInput"⟩
+    !(off "takeValuedNamed"), on "skipRecordsInput", !(off "dupIsError")⟩
   ⟨!(off "fixedReverse"), fl⟩
 
 partial def readAll (h : IO.FS.Stream) (acc : Array String) : IO (Array String) := do
